@@ -75,6 +75,8 @@ class Launcher:
 
     def stop(self, nodes, metrics_store):
         CALLS.append(("stop", self.who, tuple(n.node_name for n in nodes)))
+        if STOP_FAILS:
+            raise exceptions.LaunchError("could not stop the node")
 
 
 class Provisioner:
@@ -107,6 +109,7 @@ class MetricsStore:
 
 
 FAIL = {}  # ip -> step at which the node's mechanic fails
+STOP_FAILS = []  # non-empty: the launcher fails to stop the nodes
 
 
 def fake_create(cfg, metrics_store, node_ip, node_http_port, all_node_ips, all_node_ids, sources=False, distribution=False, external=False, docker=False):
@@ -182,6 +185,7 @@ def env():
 def new_system():
     CALLS.clear()
     FAIL.clear()
+    del STOP_FAILS[:]
     CREATE_IDS.clear()
     s = actors.System()
     s.rc_addr = s.create(actors.Endpoint)
@@ -317,14 +321,17 @@ def mechanic_failures(sl):
 # M2 Dispatcher
 # ------------------------------------------------------------------------------------------------------------------
 def _layout():
-    """symbolic target-host list: local host and/or up to two remote hosts, 1..2 nodes each"""
-    hosts = []
+    """symbolic target-host list: local host and/or up to two remote hosts, 1..2 nodes each, listed machine by machine or interleaved"""
+    per_machine = []
     spec = []
     for name, ip in (("local", "127.0.0.1"), ("remoteA", "10.0.0.2"), ("remoteB", "10.0.0.3")):
         nn = concrete(fresh_int("nodes_on_%s" % name, 0, 2))
-        for j in range(nn):
-            hosts.append({"host": ip, "port": 9200 + (j if bool(fresh_bool("%s_node%d_other_port" % (name, j))) else 0)})
+        per_machine.append([{"host": ip, "port": 9200 + (j if bool(fresh_bool("%s_node%d_other_port" % (name, j))) else 0)} for j in range(nn)])
         spec.append((ip, nn))
+    if sum(1 for m in per_machine if len(m) == 2) >= 1 and sum(1 for m in per_machine if m) >= 2 and bool(fresh_bool("hosts_listed_interleaved_(a,b,a,b)")):
+        hosts = [m[j] for j in range(2) for m in per_machine if len(m) > j]
+    else:
+        hosts = [h for m in per_machine for h in m]
     return hosts, spec
 
 
@@ -453,11 +460,17 @@ def node_start_stop(sl):
     CALLS.clear()
     n0 = len(s.sent)
     how = sl["stop"]
+    if bool(fresh_bool("stopping_the_nodes_fails")):
+        STOP_FAILS.append(True)
     with env():
         node.receiveMessage(mechanic.StopNodes() if how == "StopNodes" else ta.ActorExitRequest(), sender)
     out = [(x[0][1], x[1]) for x in sends(s)[n0:]]
     kinds = [c[0] for c in CALLS]
     core.note("stop calls", list(CALLS))
+    if STOP_FAILS:
+        observe("a host that could not stop its nodes does not confirm the stop; it reports a failure", "NodesStopped" not in [x[1] for x in out]
+                and [x[1] for x in out] == ["BenchmarkFailure"])
+        return
     observe("every started node is stopped exactly once", [c for c in CALLS if c[0] == "stop"] == [("stop", "%s:9200" % ip, tuple(started))])
     observe("stop order: stop nodes, flush, store system metrics per node, close, clean up",
             kinds == ["stop", "flush"] + ["store-system-metrics"] * nn + ["close-metrics"] + ["cleanup"] * nn)
